@@ -57,6 +57,8 @@ def units(tier, seed):
             u.append(('wrap', prof, n, k, K))
     for m in range(1, (4 if tier == 'quick' else 5) + 1):
         u.append(('wrapvec', m))
+    for m in ((2, 3) if tier == 'quick' else (2, 3, 4)):
+        u.append(('wraphist', m))
     for prof, n, K in ([('A12', 4, 4), ('G12Y013', 5, 8)] if tier == 'quick' else [('A12', 4, 4), ('A12', 5, 32), ('A1', 7, 32)]):
         for k in range(K):
             u.append(('offset', prof, n, k, K))
@@ -317,7 +319,59 @@ def check_offset(xs, ys, ox, oy):
     return 1, out
 
 
+def check_history(m, ys, coef, wname, mname, xs_seq=None):
+    """Function-major operation sequence: the SAME wrapper with the SAME line and y on every x vector of length m, back to back.
+    Exposes state carried from one call to the next (memoised projections keyed too weakly); each result is compared with the
+    reference value, so the verdict does not rely on an earlier call having been right."""
+    out = []
+    yl = [float(v) for v in ys]
+    b, mm = coef
+    seq = []
+    n_ok = 0
+    for xs in (xs_seq if xs_seq is not None else itertools.product((0, 1, 2), repeat=m)):
+        xs = list(xs)
+        seq.append(xs)
+        yh = [float(xv) * mm + b for xv in xs]
+        if mname == 'rmsle' and any(v < 0 for v in yh):
+            continue
+        try:
+            exp = ref_value(mname, yl, yh)
+        except (OverflowError, ZeroDivisionError, ValueError):
+            continue
+        try:
+            got = float(getattr(lf, wname)(np.array(xs, dtype=float), np.array(yl), (b, mm)))
+        except Exception as e:  # noqa: BLE001
+            got = float('nan') if isinstance(e, (ZeroDivisionError, FloatingPointError)) else None
+            if got is None:
+                out.append(Failure('linear_fit.' + wname, lib.exc_kind(e), 'history %s y=%s coef=(%r,%r) x=%s' % (wname, list(ys), b, mm, xs),
+                                   {'oracle': 'hist', 'wrapper': wname, 'metric': mname, 'y': list(ys), 'coef': [b, mm], 'xs_seq': [list(v) for v in seq]}, repr(e), (m, len(seq))))
+                break
+        if not tol_ok(got, exp, 1e-12, abs_tol(mname, yl, yh)):
+            out.append(Failure('linear_fit.' + wname, 'differs-from-metric-of-line-after-earlier-calls', 'history %s y=%s coef=(%r,%r) x=%s' % (wname, list(ys), b, mm, xs),
+                               {'oracle': 'hist', 'wrapper': wname, 'metric': mname, 'y': list(ys), 'coef': [b, mm], 'xs_seq': [list(v) for v in seq]},
+                               'after %d earlier calls: expected %r observed %r' % (len(seq) - 1, exp, got), (m, len(seq))))
+            break
+        n_ok += 1
+    return n_ok, out
+
+
 def run_unit(unit, res):
+    if unit[0] == 'wraphist':
+        m = unit[1]
+        for ys in itertools.product((0, 1, 3), repeat=m):
+            for coef in GRID_COEF:
+                for wname, mname in WRAPPERS:
+                    nok, fs = check_history(m, list(ys), coef, wname, mname)
+                    res.count('evaluations', 3 ** m)
+                    res.count('states', 3 ** m)
+                    res.count('transitions', 3 ** m)
+                    res.count('history_calls', 3 ** m)
+                    res.count('nontrivial', nok)
+                    for f in fs:
+                        res.fail(f)
+                    if not fs:
+                        res.count('traces')
+        return
     if unit[0] == 'wrapvec':
         # the wrappers are stated for all equal-length vectors: x need not be increasing (single points,
         # vertical segments, closed curves make the endpoint fit degenerate)
@@ -394,6 +448,8 @@ def run_unit(unit, res):
 
 
 def replay(case):
+    if case['oracle'] == 'hist':
+        return check_history(len(case['y']), case['y'], tuple(case['coef']), case['wrapper'], case['metric'], case['xs_seq'])[1]
     if case['oracle'] == 'offset':
         return check_offset(case['x'], case['y'], case['ox'], case['oy'])[1]
     if case['oracle'] == 'pair':
